@@ -38,6 +38,43 @@ fn norm(v: &Value) -> Value {
   }
 }
 
+/// FEEL expressions for the TCK / JSON value grid: 32 scalars of every kind and the lists / contexts built from them (depth 2)
+fn value_grid(odd_key: bool) -> Vec<String> {
+  let scalars: Vec<&str> = vec![r#""""#, r#""a""#, r#""ż \"q\" \\ end""#, r#""line\nbreak""#, r#""tab\tand \u0001 control""#, "0", "1", "-1", "1.5", "0.1", "100", "12345678901234567890.123456789", "0.000001", "-0.5", "10 ** 30",
+    "true", "false", "null", r#"date("2020-02-29")"#, r#"date("0044-03-15")"#, r#"time("10:11:12")"#, r#"time("10:11:12.5Z")"#, r#"time("10:11:12+02:00")"#, r#"time("23:59:59-00:30")"#,
+    r#"date and time("2020-01-02T03:04:05")"#, r#"date and time("2020-01-02T03:04:05Z")"#, r#"date and time("2020-01-02T03:04:05.25+01:00")"#,
+    r#"duration("P1Y2M")"#, r#"duration("-P11M")"#, r#"duration("P1DT2H3M4S")"#, r#"duration("-PT0.5S")"#, r#"duration("P0D")"#];
+  let mut level: Vec<String> = scalars.iter().map(|s| s.to_string()).collect();
+  let mut all: Vec<String> = level.clone();
+  for _depth in 0..2 {
+    let mut next: Vec<String> = vec!["[]".to_string(), "{}".to_string()];
+    for (i, e) in level.iter().enumerate() {
+      next.push(format!("[{}]", e));
+      next.push(format!("{{a: {}}}", e));
+      if i + 1 < level.len() { next.push(format!("[{}, {}]", e, level[i + 1])); if odd_key { next.push(format!(r#"{{first name: {}, "q\"k": {}}}"#, e, level[i + 1])); } else { next.push(format!("{{first name: {}, b: {}}}", e, level[i + 1])); } }
+    }
+    all.extend(next.iter().cloned());
+    level = next;
+  }
+  all
+}
+
+/// does the JSON document decode to the value? strings, booleans, null, lists and contexts structurally; numbers by their text;
+/// dates, times and durations as JSON strings of their FEEL text
+fn json_matches(v: &Value, j: &serde_json::Value) -> bool {
+  match (v, j) {
+    (Value::Null(_), serde_json::Value::Null) => true,
+    (Value::Boolean(b), serde_json::Value::Bool(c)) => b == c,
+    (Value::String(s), serde_json::Value::String(t)) => s == t,
+    (Value::Number(n), serde_json::Value::Number(m)) => n.to_string().parse::<f64>().ok() == m.as_f64(), // serde_json holds numbers as f64: compare at that precision
+    (Value::List(items), serde_json::Value::Array(a)) => items.as_vec().len() == a.len() && items.as_vec().iter().zip(a.iter()).all(|(x, y)| json_matches(x, y)),
+    (Value::Context(ctx), serde_json::Value::Object(o)) => ctx.iter().count() == o.len() && ctx.iter().all(|(k, x)| o.get(&k.to_string()).map(|y| json_matches(x, y)).unwrap_or(false)),
+    (Value::Date(_), serde_json::Value::String(t)) | (Value::Time(_), serde_json::Value::String(t)) | (Value::DateTime(_), serde_json::Value::String(t))
+    | (Value::DaysAndTimeDuration(_), serde_json::Value::String(t)) | (Value::YearsAndMonthsDuration(_), serde_json::Value::String(t)) => v.to_string() == *t,
+    _ => false,
+  }
+}
+
 fn model(ns: &str, name: &str) -> dmntk_model::model::Definitions {
   let xml = format!(r#"<?xml version="1.0" encoding="UTF-8"?>
 <definitions namespace="{}" name="{}" id="_d1" xmlns="https://www.omg.org/spec/DMN/20191111/MODEL/">
@@ -190,22 +227,7 @@ fn main() {
       use std::convert::TryFrom;
       let scope = Scope::default();
       let lit = |e: &str| -> Value { match dmntk_feel_parser::parse_expression(&scope, e, false).and_then(|n| dmntk_feel_evaluator::prepare(&n)) { Ok(ev) => ev(&scope), Err(_) => Value::Null(None) } };
-      let scalars: Vec<&str> = vec![r#""""#, r#""a""#, r#""\u017C \"q\" \\ end""#, r#""line\nbreak""#, "0", "1", "-1", "1.5", "0.1", "100", "12345678901234567890.123456789", "0.000001", "-0.5", "10 ** 30",
-        "true", "false", "null", r#"date("2020-02-29")"#, r#"date("0044-03-15")"#, r#"time("10:11:12")"#, r#"time("10:11:12.5Z")"#, r#"time("10:11:12+02:00")"#, r#"time("23:59:59-00:30")"#,
-        r#"date and time("2020-01-02T03:04:05")"#, r#"date and time("2020-01-02T03:04:05Z")"#, r#"date and time("2020-01-02T03:04:05.25+01:00")"#,
-        r#"duration("P1Y2M")"#, r#"duration("-P11M")"#, r#"duration("P1DT2H3M4S")"#, r#"duration("-PT0.5S")"#, r#"duration("P0D")"#];
-      let mut level: Vec<String> = scalars.iter().map(|s| s.to_string()).collect();
-      let mut all: Vec<String> = level.clone();
-      for _depth in 0..2 {
-        let mut next: Vec<String> = vec!["[]".to_string(), "{}".to_string()];
-        for (i, e) in level.iter().enumerate() {
-          next.push(format!("[{}]", e));
-          next.push(format!("{{a: {}}}", e));
-          if i + 1 < level.len() { next.push(format!("[{}, {}]", e, level[i + 1])); next.push(format!("{{first name: {}, b: {}}}", e, level[i + 1])); }
-        }
-        all.extend(next.iter().cloned());
-        level = next;
-      }
+      let all = value_grid(false); // component names are FEEL names: a key that is not a name does not come back through parse_longest_name
       let mut cases = 0usize;
       let mut failures: Vec<String> = vec![];
       let mut nfail = 0usize;
@@ -226,6 +248,25 @@ fn main() {
         if let Some(m) = msg { nfail += 1; if failures.len() < 5 { failures.push(format!("{} {}", e2, m.chars().take(300).collect::<String>())); } }
       }
       println!("tck cases={} failures={}", cases, nfail);
+      for f in failures { println!("FAIL {}", f); }
+    }
+    Some("json") => {
+      // BOUNDED stand-in (not a proof): Value::jsonify (the body of the /evaluate response) must be a JSON document that decodes to the value
+      use dmntk_common::Jsonify;
+      let scope = Scope::default();
+      let lit = |e: &str| -> Value { match dmntk_feel_parser::parse_expression(&scope, e, false).and_then(|n| dmntk_feel_evaluator::prepare(&n)) { Ok(ev) => ev(&scope), Err(_) => Value::Null(None) } };
+      let mut cases = 0usize;
+      let mut failures: Vec<String> = vec![];
+      let mut nfail = 0usize;
+      for e in &value_grid(true) {
+        let v = lit(e);
+        if let Value::Null(Some(_)) = v { if e != "null" { continue; } }
+        cases += 1;
+        let text = format!("{{\"data\":{}}}", v.jsonify());
+        let ok = match serde_json::from_str::<serde_json::Value>(&text) { Ok(doc) => doc.get("data").map(|d| json_matches(&v, d)).unwrap_or(false), Err(_) => false };
+        if !ok { nfail += 1; if failures.len() < 5 { failures.push(format!("{} rendered as {}", e, text.chars().take(300).collect::<String>())); } }
+      }
+      println!("json cases={} failures={}", cases, nfail);
       for f in failures { println!("FAIL {}", f); }
     }
     Some("scopes") => {
